@@ -16,6 +16,7 @@ extern unsigned long gh_cur_off;      /* offset it was fetched at */
 extern int gh_cur_valid;              /* the last fetch succeeded */
 extern unsigned long gh_aux_off;      /* offset passed to gelf_getverdaux */
 extern int gh_aux_called, gh_str_set, gh_str_null, gh_default_set, gh_default_val;
+extern int gh_str_empty;   /* the version name recorded last is the empty string */
 extern unsigned gh_match_ndx; extern unsigned long gh_match_off; extern unsigned gh_match_aux;   /* the verdef current when the version was recorded */
 #ifdef __cplusplus
 }
